@@ -379,6 +379,15 @@ class VerifyAttrs(object):
         attrs = arg.attrs
         meta = arg.metaattrs
 
+        if argname is None and node is not None:
+            # void func(int)
+            # (The parameters of a function pointer may be unnamed.)
+            raise RuntimeError(
+                "line {}: argument must have a name: {}".format(
+                    getattr(node, "linenumber", "?"), arg.gen_decl()
+                )
+            )
+
         for attr in attrs:
             if attr[0] == "_":  # Shroud internal attribute.
                 continue
